@@ -98,6 +98,7 @@ fn parse_uri(buf: &[u8]) -> Result<(RequestUri<'_>, &[u8]), HttpParsingError> {
                 None => Err(UnexpectedEof),
             };
         }
+        b' ' => return Err(MalformedStatusLine), // empty target
         _ => false,
     };
 
